@@ -118,6 +118,7 @@ type PkgSpec struct {
 	Opaque    []string
 	Callers   []*CallersRule
 	NonBlock  []*CallersRule // "nonblocking F1, F2": Allowed holds the functions
+	InitValues   []*CallersRule // "initvalues VAR all|some RE": Callee = VAR, Allowed = {mode, re}
 	StoredFields []*CallersRule // "storedfields T1, T2": Allowed holds the type names
 	Axioms    []*FuncSpec
 }
@@ -280,6 +281,20 @@ func parseSpecFile(path string, ps *PkgSpec, trustedFile bool) error {
 				allowed = append(allowed, strings.TrimSpace(a))
 			}
 			ps.Callers = append(ps.Callers, &CallersRule{Callee: strings.TrimSpace(rest[:oi]), Allowed: allowed, Label: label, Tags: tags, File: path, Line: ln})
+			cur = nil
+		case strings.HasPrefix(t, "initvalues "):
+			// initvalues VAR all|some "GO-REGEXP" #label @tags   the string literals in the initialiser of the
+			// package-level variable VAR all match / at least one matches the expression (SQL text, schemas)
+			text, label, tags := splitLabelTags(" " + strings.TrimPrefix(t, "initvalues "))
+			f := strings.SplitN(strings.TrimSpace(text), " ", 3)
+			if len(f) != 3 || (f[1] != "all" && f[1] != "some") {
+				return fmt.Errorf("%s:%d: initvalues VAR all|some \"REGEXP\"", path, ln)
+			}
+			re, err := strconv.Unquote(strings.TrimSpace(f[2]))
+			if err != nil {
+				return fmt.Errorf("%s:%d: initvalues: bad quoted expression: %v", path, ln, err)
+			}
+			ps.InitValues = append(ps.InitValues, &CallersRule{Callee: f[0], Allowed: []string{f[1], re}, Label: label, Tags: tags, File: path, Line: ln})
 			cur = nil
 		case strings.HasPrefix(t, "storedfields "):
 			// storedfields T1, T2 #label @tags   every field of the named struct types (and of the /repo struct types
